@@ -424,7 +424,7 @@ func checkC12(c *Ctx) {
 			}
 		}
 	}
-	c.Rule = fmt.Sprintf("every decode path (%d byte prefixes incl. all 65536 (d,op) pairs after DDCB/FDCB) x %d operand byte patterns x %d configurations (memory kind {64K array, DumbMemory len 0/1/256/32768, MapMemory} / IO kind {nil, DumbIO len 0/1/128/256} / IM {0,1,2,-1,3,MaxInt} / PC {0000,0100,FFFC..FFFF} / SP / pending request {none, NMI, unknown types, IM1, IM2, mode-0 data of 1..4 bytes and 70000 bytes} one at a time around a default, thorough: pairs); all 256 single-byte opcodes and multi-byte forms as mode-0 data x IM x IFF1 x PC x memory kind; mode-0 data of 5/8/300 bytes starting with each of the 256 opcodes with every pointer register aimed into and around [PC, PC+len); Run on a halting program with every request kind pending x IM x IFF1; Run vs Step-driven twin on every decode path as a one-instruction program in HALT-filled memory (at 0100, FFC0 and FFFA, with and without a non-empty BreakPoints map). the real DumbMemory (6 lengths) and MapMemory passed to the CPU unwrapped x every decode path x operand patterns x 4 PCs x 7 SPs; memories filled with a single prefix/opcode byte; Run called from inside a device callback of a running Run on the same CPU (BIOS-trap style, both programs halt); one CPU value stepped through the whole decode tree twice (every supported and unsupported encoding on the same object); an embedder re-pointing CPU.Memory/CPU.IO from inside the callback at access 0..4 of the Step x all 256 first bytes x 4 tails, from memory and as mode-0 data; Oracle: no panic, deterministic watchdog (4096 accesses per Step), unsupported opcodes only consumed. Non-trivial = the configuration deviates from the default in memory/IO/IM/request or the path is an unsupported or prefix-only encoding (counted).", len(paths), len(operandPats), len(cfgs))
+	c.Rule = fmt.Sprintf("every decode path (%d byte prefixes incl. all 65536 (d,op) pairs after DDCB/FDCB) x %d operand byte patterns x %d configurations (memory kind {64K array, DumbMemory len 0/1/256/32768, MapMemory} / IO kind {nil, DumbIO len 0/1/128/256} / IM {0,1,2,-1,3,MaxInt} / PC {0000,0100,FFFC..FFFF} / SP / pending request {none, NMI, unknown types, IM1, IM2, mode-0 data of 1..4 bytes and 70000 bytes} one at a time around a default, thorough: pairs); all 256 single-byte opcodes and multi-byte forms as mode-0 data x IM x IFF1 x PC x memory kind; mode-0 data of 5/8/300 bytes starting with each of the 256 opcodes with every pointer register aimed into and around [PC, PC+len); Run on a halting program with every request kind pending x IM x IFF1; Run vs Step-driven twin on every decode path as a one-instruction program in HALT-filled memory (at 0100, FFC0 and FFFA, with and without a non-empty BreakPoints map). the real DumbMemory (6 lengths) and MapMemory passed to the CPU unwrapped x every decode path x operand patterns x 4 PCs x 7 SPs; memories filled with a single prefix/opcode byte; a port device that also implements the exported (unused) INT/NMI interfaces and holds its lines until ReturnNMI/ReturnINT: the program reaches its HALT; Run called from inside a device callback of a running Run on the same CPU (BIOS-trap style, both programs halt); one CPU value stepped through the whole decode tree twice (every supported and unsupported encoding on the same object); an embedder re-pointing CPU.Memory/CPU.IO from inside the callback at access 0..4 of the Step x all 256 first bytes x 4 tails, from memory and as mode-0 data; Oracle: no panic, deterministic watchdog (4096 accesses per Step), unsupported opcodes only consumed. Non-trivial = the configuration deviates from the default in memory/IO/IM/request or the path is an unsupported or prefix-only encoding (counted).", len(paths), len(operandPats), len(cfgs))
 	c.Bound = "decode tree x configuration lattice " + c.Tier
 	var evals, nontriv [16 * 8]int64
 	var capped int32
@@ -580,7 +580,7 @@ func checkC12(c *Ctx) {
 		n += nl
 		c.Set("long_lived_cpu_steps", nl)
 	}
-	// Run called from inside a device callback of a running Run on the SAME CPU (a BIOS-trap style device: an OUT
+	// a port device that also implements the exported (unused) INT/NMI interfaces and holds its lines until ReturnNMI/ReturnINT: the program reaches its HALT; Run called from inside a device callback of a running Run on the SAME CPU (a BIOS-trap style device: an OUT
 	// or a store to a trap address makes the host run a service routine on the CPU and then resume). Both
 	// programs halt, so both Runs return. A lock or a flag that makes Run non-reentrant hangs here without a
 	// single memory access, so this is the one place with a wall-clock backstop (60 s for microseconds of work).
@@ -617,6 +617,38 @@ func checkC12(c *Ctx) {
 			c.Report("c12/nested-run", int64(variant), "", map[string]interface{}{"trap_on_out": variant == 0}, []string{fmt.Sprintf("Run with a nested Run from the callback of %s: %v", what, res)})
 		case trap.calls != 1 || cpu.BC.Hi != 3 || cpu.PC != 0x0008 || !cpu.HALT || mem[0x5000] != 3 && variant == 0:
 			c.Report("c12/nested-run", int64(variant), "", map[string]interface{}{"trap_on_out": variant == 0}, []string{fmt.Sprintf("Run with a nested Run from the callback of %s ended wrongly: trap calls %d (want 1), B=%02X (want 03), PC=%04X (want 0008), HALT=%v, (5000h)=%02X", what, trap.calls, cpu.BC.Hi, cpu.PC, cpu.HALT, mem[0x5000])})
+		}
+	}
+	// a port device that ALSO implements the package's exported INT and NMI interfaces (documented in z80.go,
+	// unused by the pinned tree) and holds its request lines active until ReturnNMI / ReturnINT is called, as
+	// the comments there describe. Whether or not a tree polls such a device, a three-instruction program
+	// with handlers that return at once must reach its HALT.
+	for im := 0; im < 3; im++ {
+		flat := &fastMem{}
+		for i, b := range []uint8{0xFB, 0x00, 0x00, 0x76} {
+			flat.b[0x0100+i] = b
+		}
+		flat.b[0x0066], flat.b[0x0067] = 0xED, 0x45                       // RETN
+		flat.b[0x0038], flat.b[0x0039], flat.b[0x003A] = 0xFB, 0xED, 0x4D // EI ; RETI
+		flat.b[0x2040], flat.b[0x2041] = 0x38, 0x00                       // mode-2 table entry -> 0038
+		cm := &countMem{m: flat, limit: 20000}
+		dev := &lineDev{nmi: true, intr: true}
+		cpu := z80.CPU{Memory: cm, IO: dev}
+		cpu.PC, cpu.SP, cpu.IM = 0x0100, 0x8000, im
+		cpu.IR.Hi = 0x20
+		var pan interface{}
+		var err error
+		func() {
+			defer func() { pan = recover() }()
+			err = cpu.Run(bgCtx)
+		}()
+		n++
+		if pan != nil || err != nil || !cpu.HALT {
+			what := fmt.Sprintf("%v", pan)
+			if _, ok := pan.(watchdogPanic); ok {
+				what = "Run did not return (deterministic watchdog: 20000 memory accesses for a program of 4 instructions and two handlers that return at once)"
+			}
+			c.Report("c12/line-device", int64(im), "", map[string]interface{}{"im": im}, []string{fmt.Sprintf("IM %d; CPU.IO is a device that also implements z80.INT and z80.NMI and holds its request lines until ReturnNMI/ReturnINT: %s; error %v, HALT=%v, PC=%04X, CheckNMI called %d times, CheckINT %d, ReturnNMI %d, ReturnINT %d", im, what, err, cpu.HALT, cpu.PC, dev.nCheckNMI, dev.nCheckINT, dev.nRetNMI, dev.nRetINT)})
 		}
 	}
 	// an embedder that switches banks by re-pointing CPU.Memory (and CPU.IO) from inside a device callback, at
@@ -920,3 +952,26 @@ func (d *trapDev) Out(p uint8, v uint8) {
 		d.trap()
 	}
 }
+
+// lineDev is a port device that also implements z80.INT and z80.NMI as documented there: a request stays
+// active until the matching Return method is called.
+type lineDev struct {
+	nmi, intr                              bool
+	nCheckNMI, nCheckINT, nRetNMI, nRetINT int
+}
+
+func (d *lineDev) In(p uint8) uint8 { return 0 }
+func (d *lineDev) Out(p, v uint8)   {}
+func (d *lineDev) CheckNMI() bool   { d.nCheckNMI++; return d.nmi }
+func (d *lineDev) ReturnNMI()       { d.nRetNMI++; d.nmi = false }
+func (d *lineDev) ReturnINT()       { d.nRetINT++; d.intr = false }
+func (d *lineDev) CheckINT() []uint8 {
+	d.nCheckINT++
+	if d.intr {
+		return []uint8{0x40}
+	}
+	return nil
+}
+
+var _ z80.INT = (*lineDev)(nil)
+var _ z80.NMI = (*lineDev)(nil)
